@@ -42,8 +42,8 @@ Oracle corrections made during calibration (class b): a transfer with |value| > 
 (the manual defines min / max as the feasible values nearest -/+ 1000, i.e. clipped: Calcite / Aragonite pairs are
 unbounded); 'CL1: Roundoff errors' messages that belong to range() calls or to discarded candidate sets are no longer
 attributed to the model that follows them.
-Not covered: isotope balances (-isotopes), -uncertainty_water, redox elements with several valence states in the
-analyses, databases other than phreeqc.dat.
+Not covered: isotope balances (-isotopes), -uncertainty_water, redox elements with several valence states present in the
+analyses (element-level -balances entries for S and C, analysed as S(6) / C(4), are covered by configuration U4), databases other than phreeqc.dat.
 """
 import itertools
 import os
@@ -81,9 +81,12 @@ UNCS = {
     "U1": ([0.01], None),
     "U2": ([0.1, 0.05], [("Ca", [0.02, 0.08]), ("Cl", [0.1])]),
     "U3": ([0.05], [("Na", [-1e-5]), ("pH", [0.1]), ("Alkalinity", [0.02]), ("K", [0.05, 0.1])]),
+    # element-level entries for elements whose analyses are valence states (S(6), C(4)): tighter than the global value
+    "U4": ([0.1], [("S", [0.02]), ("C", [0.03])]),
 }
 PERTS = [None, ("Ca", 0.5, "final"), ("Ca", 2.0, "final"), ("Cl", 2.0, "final"), ("C(4)", 0.5, "final"),
-         ("Na", 2.0, "first"), ("S(6)", 0.5, "first"), ("Mg", 2.0, "final"), ("K", 0.5, "final")]
+         ("Na", 2.0, "first"), ("S(6)", 0.5, "first"), ("Mg", 2.0, "final"), ("K", 0.5, "final"),
+         ("S(6)", 1.06, "final"), ("C(4)", 0.94, "final")]        # the last two: between a 2-3 % element-level and a 10 % global uncertainty
 
 # mixing fractions of the dispensable-solution lattice Z: a listed initial water that the final water does not contain
 # at all, or holds 2 % of (below the 5 % default uncertainty), as first or as second initial solution
@@ -410,7 +413,7 @@ def lattices(tier):
     for t in otr[:4]:
         for p in PERTS:
             for cons in ("none", "ok", "bad", "force"):
-                for u in ("U0", "U2") if quick else UNCS:
+                for u in ("U0", "U2", "U4") if quick else UNCS:
                     for o in ({"range": 1}, {"range": 1, "minimal": 1}):
                         P.append({"w": ["B", "C"], "f": [0.3, 0.7], "truth": t, "distr": ["Sylvite"], "cons": cons, "opts": o, "unc": u,
                                   "pert": list(p) if p else None, "jit": 2})
